@@ -37,6 +37,8 @@ type chunkScenario struct {
 	recvTO    time.Duration // receive deadline for the first attempts of each Recv
 	recvTries int           // how many attempts use the deadline (default 1)
 	horizon   time.Duration
+	ping      time.Duration // keepalive ping interval of both ends (0: off)
+	gap       time.Duration // pause of the sender between two messages
 }
 
 // TestC14Chunk: every payload length against every chunk size (small ones
@@ -112,6 +114,23 @@ func TestC14Chunk(t *testing.T) {
 			latency: 100 * time.Millisecond, recvTO: time.Duration(to) * time.Millisecond,
 			recvTries: 40})
 	}
+	// keepalive pings travel in the sender's data sequence space: with
+	// pings more frequent than the round trip they fall next to (and, if the
+	// send loop ever lets them, between) the chunks of a message
+	for i, n := range []uint8{1, 2, 3, 5} {
+		M := 1 + i%3
+		var lens []int
+		for k := 0; k < 10; k++ {
+			lens = append(lens, (k*7+i)%(6*M+2))
+		}
+		var dec vnet.Decider
+		if i%2 == 1 {
+			dec, _ = randomFaults(int64(14500+i), 0.15, 0.1, 100*time.Millisecond, 10*time.Second)
+		}
+		scen = append(scen, chunkScenario{name: "pings", M: M, n: n, lens: lens,
+			latency: 60 * time.Millisecond, decide: dec, ping: 40 * time.Millisecond,
+			gap: time.Duration(30*(i+1)) * time.Millisecond})
+	}
 	for si, sc := range scen {
 		sc := sc
 		beat(map[string]any{"scenario": sc.name, "M": sc.M, "i": si})
@@ -122,12 +141,19 @@ func TestC14Chunk(t *testing.T) {
 			N: sc.n, Static: time.Second, Latency: sc.latency, Decide: sc.decide,
 			Chunk: sc.M, Horizon: 30 * time.Minute,
 		}
+		if sc.ping > 0 {
+			cfg.Ping = [2]time.Duration{sc.ping, sc.ping}
+			cfg.Pong = [2]time.Duration{10 * time.Minute, 10 * time.Minute}
+		}
 		cfg.OnReady = func(run *gbnrun.Run) {
 			var wg sync.WaitGroup
 			wg.Add(2)
 			go func() { // sender (client)
 				defer wg.Done()
 				for i, L := range sc.lens {
+					if sc.gap > 0 && i > 0 {
+						time.Sleep(sc.gap)
+					}
 					p := chunkPayload(i+1, L)
 					if sc.sendTO > 0 {
 						run.Client.SetSendTimeout(sc.sendTO)
